@@ -38,6 +38,8 @@ def Ret.all : List Ret :=
 
 instance : ToString Ret := ⟨fun r => toString r.toNat⟩
 
+deriving instance DecidableEq for Except
+
 /-- Result of a C function that returns `lzma_ret` and, on `LZMA_OK`, an output value:
     `.ok v` is `LZMA_OK` with output `v`; `.error r` is the return code `r` (never `Ret.ok`). -/
 abbrev Res (α : Type) := Except Ret α
